@@ -860,3 +860,19 @@ Proof.
   - exact (reference_canceled_iff sc A _ j F).
   - exact (reference_unflagged sc A _ j F).
 Qed.
+
+(* canceled => some blocker is in the failed set accumulated over all iterations (the converse needs every
+   name to be reported at most once: a name removed as completed in iteration i and reported failed only in a
+   later iteration k > i cancels nothing - see the correspondence case with duplicate rows) *)
+Definition all_failed (log : list (list N * list N)) : list N := concat (map fst log).
+Lemma cancels_sound log : forall b, cancels b log = true -> meets b (all_failed log) = true.
+Proof.
+  induction log as [|[f n] log IH]; intros b H; [discriminate|]. cbn [cancels] in H. unfold all_failed. cbn [map concat fst].
+  apply orb_true_iff in H. apply meets_spec. destruct H as [H|H].
+  - apply meets_spec in H. destruct H as [x [H1 H2]]. exists x. split; [exact H1|apply in_or_app; left; exact H2].
+  - apply IH in H. apply meets_spec in H. destruct H as [x [H1 H2]]. apply diffN_spec in H1. exists x.
+    split; [tauto|apply in_or_app; right; exact H2].
+Qed.
+Lemma cancels_refuted_converse :
+  exists b log, meets b (all_failed log) = true /\ cancels b log = false.
+Proof. exists [1%N], [([], [1%N]); ([1%N], [1%N])]. split; reflexivity. Qed.
